@@ -71,3 +71,4 @@ import Bmc.Proofs.EndToEnd.HandshakeC01
 #print axioms Bmc.Proofs.EndToEnd.hsRun_live
 #print axioms Bmc.Proofs.EndToEnd.hsRun_against_spec_bmc
 #print axioms Bmc.Proofs.EndToEnd.generated_newV2Session_live
+#print axioms Bmc.Proofs.EndToEnd.generated_newV2Session_against_spec_bmc
